@@ -213,10 +213,12 @@ def handle : Handler
           let (rc, _, st) := deserialize k ds
           pure (summary rc st.evs)
       | _, _ => none
-  | "mapset" :: kind :: n :: rest => handleMap false "mapset" kind n rest       -- the code as it is
-  | "mapsetfixed" :: kind :: n :: rest => handleMap true "mapset" kind n rest   -- with the proposed repair
+  | "mapset" :: kind :: n :: rest => handleMap true "mapset" kind n rest        -- the code as repaired by /repo commit 7285a53
+  | "mapsetpinned" :: kind :: n :: rest => handleMap false "mapset" kind n rest -- the pinned behaviour (C17_cex_map_set_corrupt)
+  | "mapsetfixed" :: kind :: n :: rest => handleMap true "mapset" kind n rest
   | "mapdel" :: kind :: n :: rest => handleMap true "mapdel" kind n rest
-  | "tclone" :: kind :: n :: rest => handleMap false "tclone" kind n rest
+  | "tclone" :: kind :: n :: rest => handleMap true "tclone" kind n rest        -- repaired by /repo commit 7285a53
+  | "tclonepinned" :: kind :: n :: rest => handleMap false "tclone" kind n rest
   | "tclonefixed" :: kind :: n :: rest => handleMap true "tclone" kind n rest
   | "set" :: rest => do
       -- the target element is built first (fault-free clone of <tshape> from the empty state); the window starts after it
